@@ -14,14 +14,31 @@ class GeneratorInit:
 IRMOD = ["_type", "_types", "_hash", "_sorted"]
 
 
-@contract(MG + ".generate", props=["C01", "C02", "C07", "C08", "C13"], verify=False)
+@contract(MG + ".generate", props=["C01", "C02", "C13"])
 class Generate:
-    """bounded only for now (IR-level clauses are carried by _detect_type / merge_field_sets / optimize_type)"""
-    sorts = {"data_variants": "tuple", "result": "dict"}
-    modifies = ["_type", "_types", "_hash", "_sorted"]
+    """C01 at the top of inference: the model inferred from a list of objects has exactly the keys that occur in them, and a key that
+    some object lacks is Optional (so 'every field without a default is present' in every sample); C13: the samples themselves
+    become a model.  The value-level half (every value lies in the annotated type) is bounded only."""
+    sorts = {"data_variants": "tuple", "data_variants[]": "dict", "result": "dict", "fields_sets": "list", "fields": "dict"}
+    modifies = ["_type", "_types", "_hash", "_sorted", "_overflow", "_literals"]
+
+    def requires(self, data_variants):
+        return {"samples_are_json_objects": forall(range(seq_len(data_variants)), lambda i: ty_is(at(data_variants, i), dict)
+                                                   and forall(as_dict(at(data_variants, i)), lambda k: is_json(as_dict(at(data_variants, i))[k]))),
+                "registry_wf": registry_wf(self.str_types_registry)}
 
     def raises(self, data_variants):
-        return {"*": True}
+        return {"TypeError": True, "StopIteration": True}
+
+    def ensures(self, data_variants, result):
+        n = seq_len(data_variants)
+        return {
+            "is_model@C13": ty_is(result, dict),
+            "every_key_becomes_a_field@C01": forall(range(n), lambda i: forall(as_dict(at(data_variants, i)), lambda k: k in as_dict(result))),
+            "no_field_without_a_key@C02": forall(as_dict(result), lambda k: exists(range(n), lambda i: k in as_dict(at(data_variants, i)))),
+            "absent_somewhere_means_optional@C01": forall(as_dict(result), lambda k: implies(
+                exists(range(n), lambda i: not (k in as_dict(at(data_variants, i)))), isinstance(as_dict(result)[k], DOptional))),
+        }
 
 
 @contract(MG + "._convert", props=["C13", "C17", "C01"])
@@ -129,6 +146,9 @@ class OptimizeType:
             "null_preserved@C01,C02": implies(plain, (result is Null) == (meta is Null)),
             "any_preserved@C02": implies(plain, (result is Unknown) == (meta is Unknown)),
             "optional_only_from_optional_or_union@C02": implies(isinstance(result, DOptional), isinstance(meta, DOptional) or isinstance(meta, DUnion)),
+            "optional_stays_optional@C01": implies(isinstance(meta, DOptional), isinstance(result, DOptional)),
+            "optional_fields_stay_optional@C01": implies(ty_is(meta, dict), forall(as_dict(meta), lambda k: implies(
+                isinstance(as_dict(meta)[k], DOptional), isinstance(as_dict(result)[k], DOptional)))),
             "union_only_from_union@C08": implies(isinstance(result, DUnion), isinstance(meta, DUnion)),
             "optional_not_nested@C08": implies(isinstance(result, DOptional), not isinstance(attr_of(result, "_type"), DOptional)),
             "no_overflowed_or_empty_literal@C08,C10": implies(isinstance(result, StringLiteral) and not isinstance(meta, DUnion), not attr_bool(result, "_overflow") and card(attr_set(result, "_literals")) > 0),
@@ -140,7 +160,8 @@ class OptimizeType:
 
 @loop(MG + ".optimize_type", 1)
 def optimize_type_model_loop(meta, fields, _it, _seq):
-    return {"keys_so_far": ty_is(fields, dict) and forall(range(_it), lambda j: _seq[j] in fields) and forall(fields, lambda k: exists(range(_it), lambda j: _seq[j] is k))}
+    return {"keys_so_far": ty_is(fields, dict) and forall(range(_it), lambda j: _seq[j] in fields) and forall(fields, lambda k: exists(range(_it), lambda j: _seq[j] is k)),
+            "optional_so_far": forall(range(_it), lambda j: implies(isinstance(as_dict(meta)[_seq[j]], DOptional), isinstance(as_dict(fields)[_seq[j]], DOptional)))}
 
 
 @spec
